@@ -158,7 +158,7 @@ class InlineIndex:
                     elif g.kind == "coroutine" and d.qname == "std::future::Future::poll" and "t" in t:
                         u = self.user_fn(g)
                         if u.is_async and self.F.body_of(u) is g and self.is_helper(u):
-                            create = self._find_creation(f, blocks, nb0, u)
+                            create = self._find_creation(f, blocks, nb0, u, t)
                             if create is not None:
                                 gi = self.inlined(g, depth + 1)
                                 self._splice_async(blocks, locals_, vars_, bi, t, gi, create, f)
@@ -177,7 +177,7 @@ class InlineIndex:
             self._inl[f] = res
         return res
 
-    def _find_creation(self, f, blocks, nb0, u):
+    def _find_creation(self, f, blocks, nb0, u, poll=None):
         found = []
         for bi in range(nb0):
             t = blocks[bi]["t"]
@@ -185,7 +185,52 @@ class InlineIndex:
                 d, r, rk = f.callee(t)
                 if r is not None and r.path == u.path:
                     found.append(t)
-        return found[0] if len(found) == 1 else None
+        if len(found) == 1:
+            return found[0]
+        if len(found) > 1 and poll is not None and poll.get("args"):
+            # several futures of this helper are created in the body (one per branch): the one polled here is the one
+            # the pinned receiver derives from (create -> into_future -> awaitee -> &mut -> Pin)
+            dests = {t["dest"]["l"]: t for t in found if not t["dest"].get("pr")}
+            defs = f._cache.get("defs_inl")
+            if defs is None:
+                defs = {}
+                for blk in f.blocks:
+                    for st in blk["s"]:
+                        if st["k"] == "assign" and not st["p"].get("pr"):
+                            defs.setdefault(st["p"]["l"], []).append(("s", st["r"]))
+                    tt = blk["t"]
+                    if tt["k"] == "call" and not tt["dest"].get("pr"):
+                        defs.setdefault(tt["dest"]["l"], []).append(("c", tt))
+                f._cache["defs_inl"] = defs
+
+            def lop(o):
+                pl = o.get("c") or o.get("m")
+                return pl["l"] if pl is not None and not [e for e in pl.get("pr", []) if e != "*"] else None
+            cur = lop(poll["args"][0])
+            for _ in range(12):
+                if cur is None:
+                    break
+                if cur in dests:
+                    return dests[cur]
+                ds = defs.get(cur, [])
+                if len(ds) != 1:
+                    break
+                kind, d = ds[0]
+                if kind == "s":
+                    if d["k"] == "use":
+                        cur = lop(d["o"])
+                    elif d["k"] in ("ref", "rawptr"):
+                        cur = d["p"]["l"] if not [e for e in d["p"].get("pr", []) if e != "*"] else None
+                    else:
+                        break
+                else:
+                    if len(d["args"]) != 1 or "decl" not in d["f"]:
+                        break
+                    q = f.callee(d)[0].qname
+                    if q not in ("std::pin::Pin::new_unchecked", "std::pin::Pin::new", "std::future::IntoFuture::into_future"):
+                        break
+                    cur = lop(d["args"][0])
+        return None
 
     # ------------------------------------------------------------------
     @staticmethod
